@@ -2,25 +2,100 @@
 """Re-runs the quick checks against the stored seeded changes (must alarm) and
 behaviour-preserving refactors (must stay silent) by applying each stored patch
 to /repo, running the checks recorded in its meta.json, and reverting.
-usage: recheck.py [seeded|refactors] [ID-prefix ...]      (developer aid; /repo must be clean)"""
-import json, glob, os, subprocess, sys
+usage: recheck.py [-jN] [seeded|refactors] [ID-prefix ...]      (developer aid; /repo must be clean)
+With -jN the patches are applied in N scratch worktrees of /repo (under /tmp,
+removed at the end) and checked in parallel with prismcheck -repo."""
+import json, glob, os, subprocess, sys, threading, queue, shutil
 
 V, REPO, BIN = '/verif', '/repo', '/verif/bin/prismcheck'
 
 def sh(cmd, cwd=REPO):
     return subprocess.run(cmd, shell=True, cwd=cwd, capture_output=True, text=True)
 
-def run_checks(checks):
+def run_checks(checks, repo=REPO):
     res = {}
     for c in checks:
-        p = sh(f'{BIN} -property {c} -tier quick -noevidence')
+        p = sh(f'{BIN} -repo {repo} -property {c} -tier quick -noevidence', cwd=repo)
         lines = [l.strip() for l in p.stdout.splitlines() if l.strip().startswith(('VIOLATED', 'UNDECIDED'))]
         res[c] = {'exit': p.returncode, 'reports': lines[:6]}
     return res
 
+def checks_of(kind, meta):
+    if kind == 'refactors':
+        return list(meta.get('result', {}).get('checks', {}).keys()) or [meta['property']]
+    return [k for k, v in meta.get('caught_by', {}).items()] or [meta['property']]
+
+def report(kind, name, mf, meta, res):
+    alarms = [c for c, v in res.items() if v['exit'] != 0]
+    if kind == 'refactors':
+        meta.setdefault('result', {})['checks'] = res
+        meta['result']['false_alarms'] = alarms
+        json.dump(meta, open(mf, 'w'), indent=1)
+        print(f'{name}: false alarms {alarms}')
+        for c in alarms:
+            for l in res[c]['reports'][:2]:
+                print('      ', l[:300])
+        return 0
+    own = meta['property']
+    caught = {c: (res[c]['exit'] != 0) for c in res}
+    meta['caught_by'] = caught
+    json.dump(meta, open(mf, 'w'), indent=1)
+    flag = '' if caught.get(own) else '   <<<<<< MISSED by its own property check'
+    print(f'{name}: caught by {[c for c, v in caught.items() if v]}{flag}')
+    return 0 if caught.get(own) else 1
+
+def parallel(kind, prefixes, n):
+    root = f'/tmp/recheck-wt-{os.getpid()}'
+    os.makedirs(root)
+    jobs = queue.Queue()
+    for mf in sorted(glob.glob(f'{V}/{kind}/*/meta.json')):
+        name = os.path.basename(os.path.dirname(mf))
+        if prefixes and not any(name.startswith(p) for p in prefixes):
+            continue
+        jobs.put(mf)
+    out, lock = {}, threading.Lock()
+    def worker(k):
+        wt = f'{root}/w{k}'
+        if sh(f'git worktree add --detach {wt} HEAD').returncode != 0:
+            return
+        while True:
+            try:
+                mf = jobs.get_nowait()
+            except queue.Empty:
+                return
+            d = os.path.dirname(mf); name = os.path.basename(d)
+            meta = json.load(open(mf))
+            if sh(f'git apply {d}/patch.diff', cwd=wt).returncode != 0:
+                with lock: out[name] = None
+                continue
+            try:
+                res = run_checks(checks_of(kind, meta), wt)
+            finally:
+                sh('git checkout -- . && git clean -fdq', cwd=wt)
+            with lock: out[name] = (mf, meta, res)
+    ts = [threading.Thread(target=worker, args=(k,)) for k in range(n)]
+    for t in ts: t.start()
+    for t in ts: t.join()
+    for k in range(n):
+        sh(f'git worktree remove --force {root}/w{k}')
+    shutil.rmtree(root, ignore_errors=True)
+    sh('git worktree prune')
+    bad = 0
+    for name in sorted(out):
+        if out[name] is None:
+            print(f'{name}: patch no longer applies'); continue
+        bad += report(kind, name, *out[name])
+    sys.exit(1 if bad else 0)
+
 def main():
-    kind = sys.argv[1] if len(sys.argv) > 1 else 'refactors'
-    prefixes = sys.argv[2:]
+    args = sys.argv[1:]
+    n = 0
+    if args and args[0].startswith('-j'):
+        n = int(args[0][2:] or 8); args = args[1:]
+    kind = args[0] if args else 'refactors'
+    prefixes = args[1:]
+    if n:
+        parallel(kind, prefixes, n)
     if sh('git diff --quiet').returncode != 0:
         print('/repo is dirty'); sys.exit(2)
     bad = 0
